@@ -647,3 +647,60 @@ def gmm_const(cases):
         except Exception as ex:
             o["fails"].append(("exception", f"{type(ex).__name__}: {str(ex)[:200]} on constant data {n} x {val}", replay))
     return o
+
+
+def runtime_replay(cases):
+    """'replayable' at the level of the asynchronous runtime: two episodes of one AsyncGraph started from the same graph state (same
+    per-connection / per-node delay rng) draw the same delays, message after message, however many the earlier episode consumed (the recorded
+    delays are time differences at clock resolution: their sign is not judged here, the samples themselves are in `sampling`). cases: [dict(seed, n1, n2)]."""
+    import random
+
+    import rt
+
+    o = _out()
+    for c in cases:
+        replay = dict(task="runtime_replay", case=c)
+        rng = random.Random(c["seed"])
+        spec = rt.rand_spec(rng, n_nodes=rng.randint(2, 3))
+        for k, cn in enumerate(spec["conns"]):  # stochastic communication delays (positive mean, sizeable spread)
+            if k == 0 or rng.random() < 0.6:
+                cn["comm"] = dict(kind="normal", loc=round(rng.uniform(0.005, 0.05), 4), scale=round(rng.uniform(0.002, 0.03), 4))
+        for nd in spec["nodes"]:
+            if rng.random() < 0.5:
+                nd["comp"] = dict(kind="normal", loc=round(rng.uniform(0.002, 0.03), 4), scale=round(rng.uniform(0.001, 0.01), 4))
+        o["evals"] += 1
+        _cnt(o, "runtime_replay")
+        try:
+            run = rt.AsyncRun(spec)
+            recs = []
+            for n in (c["n1"], c["n2"], c["n1"]):
+                rec, _, _ = run.episode(n, eps=0)
+                recs.append(rt.episode_record_to_dict(rec))
+        except Exception as ex:  # noqa
+            o["notes"].append(f"runtime_replay seed={c['seed']}: {type(ex).__name__}: {str(ex)[:200]}")
+            _cnt(o, "runtime_replay:not_run")
+            continue
+        base_rec = recs[0]
+        for e, r in enumerate(recs[1:], start=1):
+            for n_, nr in r.items():
+                b = base_rec[n_]
+                k = min(len(nr["delay"]), len(b["delay"]))
+                if nr["delay"][:k] != b["delay"][:k]:
+                    j = [i for i in range(k) if nr["delay"][i] != b["delay"][i]][0]
+                    o["fails"].append(("runtime_replay", f"seed={c['seed']}: computation delay {j} of node {n_} is {nr['delay'][j]} in episode {e} but {b['delay'][j]} in episode 0, although both episodes start from the same graph state "
+                                       f"(episode lengths {c['n1']}, {c['n2']}, {c['n1']})", replay))
+                    break
+                for src, m in (nr.get("messages") or {}).items():
+                    bm = (b.get("messages") or {}).get(src)
+                    if bm is None:
+                        continue
+                    k = min(len(m["delay"]), len(bm["delay"]))
+                    _cnt(o, "runtime_replay:message_delays_compared", k)
+                    if m["delay"][:k] != bm["delay"][:k]:
+                        j = [i for i in range(k) if m["delay"][i] != bm["delay"][i]][0]
+                        o["fails"].append(("runtime_replay", f"seed={c['seed']}: communication delay of message {j} on {src}->{n_} is {m['delay'][j]} in episode {e} but {bm['delay'][j]} in episode 0, although both episodes "
+                                           f"start from the same graph state (episode lengths {c['n1']}, {c['n2']}, {c['n1']})", replay))
+                        break
+        o["nontriv"].append(dict(seed=c["seed"], runtime=True))
+    return o
+
